@@ -232,6 +232,24 @@ def ob_leader(tier):
     return _finish(S, "C05.leader", replay)
 
 
+def _volume_probes():
+    """volume directories with N = 0..9 file-pointer records written from the pinned layout -> real parser: text record and pointer count"""
+    from ceos_alos2.volume_directory.io import parse_data
+    from vlib import specwriter as W
+
+    bad = []
+    for k in range(10):
+        try:
+            raw, expected = W.write("volume_directory", params={"nfp": k})
+            d = parse_data(raw)
+            want = expected.get(("text_record", "scene_id"))
+            if d["text_record"]["scene_id"] != want or len(d["file_descriptors"]) != k:
+                bad.append({"n": k, "scene_id": d["text_record"]["scene_id"], "pointers": len(d["file_descriptors"])})
+        except Exception as e:  # noqa: BLE001
+            bad.append({"n": k, "error": f"{type(e).__name__}: {str(e)[:80]}"})
+    return {"reproduced": bool(bad), "failed": bad[:4]}
+
+
 def ob_volume(tier):
     from ceos_alos2.volume_directory.structure import volume_directory_record
     from vlib import layout
@@ -239,7 +257,15 @@ def ob_volume(tier):
 
     S = Session(cross=(tier == "thorough"))
     n = z3.Int("n")
-    it, end, val = layout.interpret(volume_directory_record, values={("volume_descriptor", "number_of_file_pointer_records"): n})
+    try:
+        it, end, val = layout.interpret(volume_directory_record, values={("volume_descriptor", "number_of_file_pointer_records"): n})
+    except layout.Unsupported as e:
+        # the live struct uses a construct the layout model does not cover: no proof is possible; files written from the PINNED layout for
+        # N = 0..9 still go through the real parser - a failing one is a reproduced violation, passing ones leave the obligation inconclusive
+        rep = _volume_probes()
+        if rep["reproduced"]:
+            return {"verdict": "violated", "queries": 0, "replays": 10, "cex": {"layout model": f"not applicable: {e}", "replay": rep}, "finding_key": "C05.volume:probes:" + ",".join(str(b["n"]) for b in rep["failed"])}
+        return {"verdict": "inconclusive", "reason": f"layout model not applicable to the live struct ({e}); pinned-layout probes N = 0..9 parse correctly"}
     S.feasible("volume:feasible", it.constraints + [n == 6], show=[n])
     S.holds("volume:end", it.constraints, end == 360 * (2 + n), show=[n])
     by = {lf.path: lf for lf in it.leaves}
